@@ -242,7 +242,7 @@ Section ExtractNested.
   Hypothesis Hparent : exists o, hd_error (e_outputs e) = Some o /\ h_owner h o = Some parent.
   Hypothesis Hnd : NoDup gn.
   Hypothesis Hlookup : forall m, In m (s_nodes s) -> lookup_node univ (n_id m) = Some m.
-  Hypothesis Hprod : forall v n, h_prod h v = Some n <-> In n gn /\ In v (u_nouts univ n).
+  Hypothesis Hprod : forall v n, In n gn -> (h_prod h v = Some n <-> In v (u_nouts univ n)).
   Hypothesis Htopo : forall l1 n l2, gn = l1 ++ n :: l2 ->
                        forall u p, reads (u_nins univ) ncaps n u -> h_prod h u = Some p -> In p l1.
   Hypothesis Hinner : forall m S v, In m (s_nodes s) -> In S (n_subs m) -> In v (defs_rec_g S) ->
